@@ -174,6 +174,7 @@ type Result struct {
 	RetSame   bool            ` + "`json:\"retsame,omitempty\"`" + ` // the returned error IS the injected one
 	HasGetter bool            ` + "`json:\"hasgetter,omitempty\"`" + `
 	VarErr    string          ` + "`json:\"varerr,omitempty\"`" + `
+	InputType string          ` + "`json:\"inputtype,omitempty\"`" + ` // inputrt: name of the generated input struct
 }
 
 type recClient struct {
@@ -296,6 +297,58 @@ func RunTask(t *Task) (res *Result) {
 						}
 					}
 				}
+			}
+		case "inputrt":
+			// a valid variables object decoded into the operation's generated input struct,
+			// marshaled and decoded again.  The struct type is learnt from a dry call.
+			fn := reflect.ValueOf(op.Fn)
+			ft := fn.Type()
+			cl := &recClient{}
+			cg.Client, cg.Fail = cl, nil
+			var args []reflect.Value
+			for i := 0; i < ft.NumIn(); i++ {
+				it := ft.In(i)
+				switch {
+				case it.Implements(reflect.TypeOf((*context.Context)(nil)).Elem()):
+					args = append(args, reflect.ValueOf(context.Background()).Convert(it))
+				case it == reflect.TypeOf((*graphql.Client)(nil)).Elem():
+					args = append(args, reflect.ValueOf(graphql.Client(cl)))
+				default:
+					args = append(args, reflect.Zero(it))
+				}
+			}
+			fn.Call(args)
+			if len(cl.reqs) == 0 || cl.reqs[0].Variables == nil {
+				res.Err = "harness: no variables struct"
+				return
+			}
+			vt := reflect.TypeOf(cl.reqs[0].Variables)
+			if vt.Kind() != reflect.Ptr {
+				res.Err = "harness: variables are not a pointer to a struct"
+				return
+			}
+			res.InputType = vt.Elem().Name()
+			v1 := reflect.New(vt.Elem()).Interface()
+			if err := json.Unmarshal(t.JSON, v1); err != nil {
+				res.Err = err.Error()
+				res.Dump = Dump(reflect.ValueOf(v1))
+				return
+			}
+			res.Dump = Dump(reflect.ValueOf(v1))
+			out, merr := json.Marshal(v1)
+			if merr != nil {
+				res.ReErr = merr.Error()
+				return
+			}
+			res.Remarshal = string(out)
+			v2 := reflect.New(vt.Elem()).Interface()
+			if e2 := json.Unmarshal(out, v2); e2 != nil {
+				res.Round2Err = e2.Error()
+				return
+			}
+			res.RoundTrip = reflect.DeepEqual(v1, v2)
+			if !res.RoundTrip {
+				res.Dump2 = Dump(reflect.ValueOf(v2))
 			}
 		case "call":
 			fn := reflect.ValueOf(op.Fn)
